@@ -108,6 +108,37 @@ def scan():
                     for kw in node.keywords:
                         if kw.arg == attr and isinstance(kw.value, ast.Constant) and kw.value.value is not None:
                             inst_literals.append((rel, cn, attr, repr(kw.value.value), node.lineno))
+    # functions seeding the GLOBAL generator from one of their PARAMETERS: a call site inside the package that passes that
+    # parameter (anything but the literal None) makes the library itself reseed the process-wide stream there
+    fn_params = {}     # function name -> (param, positional index)
+    for rel, tree in sorted(trees.items()):
+        for fn in [n for n in ast.walk(tree) if isinstance(n, ast.FunctionDef)]:
+            names = [a.arg for a in fn.args.args]
+            for c in ast.walk(fn):
+                if isinstance(c, ast.Call) and (_name(c.func) or "") in ("np.random.seed", "numpy.random.seed"):
+                    arg = c.args[0] if c.args else (c.keywords[0].value if c.keywords else None)
+                    an = _name(arg) if arg is not None else None
+                    if an in names or an in {a.arg for a in fn.args.kwonlyargs}:
+                        idx = names.index(an) if an in names else None
+                        if idx is not None and names and names[0] == "self":
+                            idx -= 1
+                        fn_params[fn.name] = (an, idx)
+    param_seed_calls = []
+    for rel, tree in sorted(trees.items()):
+        for node in ast.walk(tree):
+            if isinstance(node, ast.Call):
+                cn = (_name(node.func) or "").split(".")[-1]
+                if cn in fn_params:
+                    pn, idx = fn_params[cn]
+                    passed = [kw.value for kw in node.keywords if kw.arg == pn]
+                    if idx is not None and len(node.args) > idx:
+                        passed.append(node.args[idx])
+                    if any(kw.arg is None for kw in node.keywords) or any(isinstance(a, ast.Starred) for a in node.args):
+                        passed.append(ast.Name(id="<star-args>"))
+                    for v in passed:
+                        if not (isinstance(v, ast.Constant) and v.value is None):
+                            param_seed_calls.append((rel, cn, pn, ast.unparse(v) if not isinstance(v, ast.Name) else v.id, node.lineno))
+    scan.param_seed_calls = param_seed_calls
     return sites, unknown, inst_literals
 
 
@@ -154,6 +185,10 @@ def render(sites, unknown, inst, flow):
     L.append("/-- instantiations, inside the package, of a class that seeds the GLOBAL generator from an attribute, passing a literal for it -/")
     L.append("def literalSeedInstantiations : List (String × String × String × String) := [" +
              ", ".join(f"({q(a)}, {q(b)}, {q(c)}, {q(d)})" for a, b, c, d, _ in inst) + "]")
+    L.append("")
+    L.append("/-- call sites, inside the package, that pass a value for the seed PARAMETER of a function seeding the GLOBAL generator from it -/")
+    L.append("def paramSeedCallSites : List (String × String × String × String) := [" +
+             ", ".join(f"({q(a)}, {q(b)}, {q(c)}, {q(d)})" for a, b, c, d, _ in getattr(scan, "param_seed_calls", [])) + "]")
     L.append("")
     for k, v in flow.items():
         L.append(f"def {k} : Nat := {v}")
